@@ -1,0 +1,266 @@
+//! Verification hooks (only compiled with the `verif` feature).
+//!
+//! Provides two things to an external test harness:
+//! - [point]: named crash / trace points placed around durable writes.
+//! - [sync]: drop-in replacements for [std::sync::Mutex] and [std::sync::Condvar] that report every
+//!   acquisition, release and wait to an [Observer], so lock ordering and thread interleavings can be
+//!   observed and controlled.
+//!
+//! With no observer / handler installed everything here is pass-through.
+
+use std::io::Write;
+use std::sync::atomic::{AtomicUsize, Ordering};
+use std::sync::{Arc, RwLock};
+
+/// Identifies a hooked lock: `class` is the protected type's name, `id` is unique per instance.
+#[derive(Debug, Clone, Copy, PartialEq, Eq, Hash)]
+pub struct LockId {
+    pub class: &'static str,
+    pub id: usize,
+}
+
+/// Receives the events produced by the hooks. All methods default to no-ops.
+pub trait Observer: Send + Sync {
+    /// A named crash / trace point was reached. May unwind to simulate the process dying there.
+    fn point(&self, _name: &str) {}
+    /// The calling thread is about to block on `lock`.
+    fn before_acquire(&self, _lock: LockId) {}
+    /// The calling thread now owns `lock`.
+    fn acquired(&self, _lock: LockId) {}
+    /// The calling thread no longer owns `lock`.
+    fn released(&self, _lock: LockId) {}
+    /// Whether [Observer::cv_block] implements condvar waiting itself (serialised scheduling).
+    fn takes_over_cv(&self) -> bool {
+        false
+    }
+    /// The calling thread is about to wait on `cv`, atomically releasing `lock`.
+    fn cv_wait_begin(&self, _cv: usize, _lock: LockId) {}
+    /// Only called if [Observer::takes_over_cv]: blocks until `cv` is notified (spurious returns allowed).
+    fn cv_block(&self, _cv: usize, _lock: LockId) {}
+    /// The calling thread returned from waiting on `cv` (and owns `lock` again).
+    fn cv_wait_end(&self, _cv: usize, _lock: LockId) {}
+    /// `cv` was notified.
+    fn cv_notify(&self, _cv: usize) {}
+}
+
+static OBSERVER: RwLock<Option<Arc<dyn Observer>>> = RwLock::new(None);
+static NEXT_ID: AtomicUsize = AtomicUsize::new(1);
+static POINT_COUNT: AtomicUsize = AtomicUsize::new(0);
+
+/// Installs (or removes) the process-wide observer.
+pub fn set_observer(observer: Option<Arc<dyn Observer>>) {
+    *OBSERVER.write().unwrap_or_else(|e| e.into_inner()) = observer;
+}
+
+fn observer() -> Option<Arc<dyn Observer>> {
+    OBSERVER.read().unwrap_or_else(|e| e.into_inner()).clone()
+}
+
+/// A named crash / trace point.
+///
+/// - If an observer is installed, it is told (and may unwind).
+/// - `TEOS_VERIF_TRACE=<file>`: appends `<seq> <name>` to the file.
+/// - `TEOS_VERIF_ABORT_AT=<n>`: aborts the process when the n-th point (1-based) is reached.
+pub fn point(name: &str) {
+    let seq = POINT_COUNT.fetch_add(1, Ordering::SeqCst) + 1;
+    if let Some(o) = observer() {
+        o.point(name);
+    }
+    if let Ok(path) = std::env::var("TEOS_VERIF_TRACE") {
+        if let Ok(mut f) = std::fs::OpenOptions::new()
+            .create(true)
+            .append(true)
+            .open(path)
+        {
+            let _ = writeln!(f, "{seq} {name}");
+        }
+    }
+    if let Ok(n) = std::env::var("TEOS_VERIF_ABORT_AT") {
+        if n.parse::<usize>().ok() == Some(seq) {
+            std::process::abort();
+        }
+    }
+}
+
+/// Guard returned by [around]; reaches `<name>.after` when dropped.
+pub struct After(&'static str);
+
+/// Reaches `<name>.before` now and `<name>.after` when the returned guard goes out of scope.
+pub fn around(name: &'static str) -> After {
+    point(&format!("{name}.before"));
+    After(name)
+}
+
+impl Drop for After {
+    fn drop(&mut self) {
+        // A point may unwind; never do that while already unwinding.
+        if !std::thread::panicking() {
+            point(&format!("{}.after", self.0));
+        }
+    }
+}
+
+pub mod sync {
+    //! Observable versions of [std::sync::Mutex] and [std::sync::Condvar].
+    use super::{observer, LockId, NEXT_ID};
+    use std::fmt;
+    use std::ops::{Deref, DerefMut};
+    use std::sync::atomic::Ordering;
+    use std::sync::{LockResult, PoisonError};
+
+    pub struct Mutex<T> {
+        inner: std::sync::Mutex<T>,
+        id: LockId,
+    }
+
+    pub struct MutexGuard<'a, T> {
+        inner: Option<std::sync::MutexGuard<'a, T>>,
+        mutex: &'a Mutex<T>,
+    }
+
+    impl<T> Mutex<T> {
+        pub fn new(t: T) -> Self {
+            Mutex {
+                inner: std::sync::Mutex::new(t),
+                id: LockId {
+                    class: std::any::type_name::<T>(),
+                    id: NEXT_ID.fetch_add(1, Ordering::SeqCst),
+                },
+            }
+        }
+
+        pub fn lock_id(&self) -> LockId {
+            self.id
+        }
+
+        pub fn lock(&self) -> LockResult<MutexGuard<'_, T>> {
+            let obs = observer();
+            if let Some(o) = &obs {
+                o.before_acquire(self.id);
+            }
+            let res = self.inner.lock();
+            if let Some(o) = &obs {
+                o.acquired(self.id);
+            }
+            match res {
+                Ok(g) => Ok(MutexGuard {
+                    inner: Some(g),
+                    mutex: self,
+                }),
+                Err(e) => Err(PoisonError::new(MutexGuard {
+                    inner: Some(e.into_inner()),
+                    mutex: self,
+                })),
+            }
+        }
+
+        pub fn is_poisoned(&self) -> bool {
+            self.inner.is_poisoned()
+        }
+    }
+
+    impl<T: fmt::Debug> fmt::Debug for Mutex<T> {
+        fn fmt(&self, f: &mut fmt::Formatter<'_>) -> fmt::Result {
+            self.inner.fmt(f)
+        }
+    }
+
+    impl<T> Deref for MutexGuard<'_, T> {
+        type Target = T;
+        fn deref(&self) -> &T {
+            self.inner.as_ref().unwrap()
+        }
+    }
+
+    impl<T> DerefMut for MutexGuard<'_, T> {
+        fn deref_mut(&mut self) -> &mut T {
+            self.inner.as_mut().unwrap()
+        }
+    }
+
+    impl<T> Drop for MutexGuard<'_, T> {
+        fn drop(&mut self) {
+            if let Some(g) = self.inner.take() {
+                drop(g);
+                if let Some(o) = observer() {
+                    o.released(self.mutex.id);
+                }
+            }
+        }
+    }
+
+    pub struct Condvar {
+        inner: std::sync::Condvar,
+        id: usize,
+    }
+
+    impl Condvar {
+        pub fn new() -> Self {
+            Condvar {
+                inner: std::sync::Condvar::new(),
+                id: NEXT_ID.fetch_add(1, Ordering::SeqCst),
+            }
+        }
+
+        pub fn wait<'a, T>(&self, mut guard: MutexGuard<'a, T>) -> LockResult<MutexGuard<'a, T>> {
+            let mutex = guard.mutex;
+            let obs = observer();
+            match &obs {
+                Some(o) if o.takes_over_cv() => {
+                    o.cv_wait_begin(self.id, mutex.id);
+                    drop(guard);
+                    o.cv_block(self.id, mutex.id);
+                    let res = mutex.lock();
+                    o.cv_wait_end(self.id, mutex.id);
+                    res
+                }
+                _ => {
+                    if let Some(o) = &obs {
+                        o.cv_wait_begin(self.id, mutex.id);
+                    }
+                    let inner = guard.inner.take().unwrap();
+                    let res = self.inner.wait(inner);
+                    if let Some(o) = &obs {
+                        o.cv_wait_end(self.id, mutex.id);
+                    }
+                    match res {
+                        Ok(g) => Ok(MutexGuard {
+                            inner: Some(g),
+                            mutex,
+                        }),
+                        Err(e) => Err(PoisonError::new(MutexGuard {
+                            inner: Some(e.into_inner()),
+                            mutex,
+                        })),
+                    }
+                }
+            }
+        }
+
+        pub fn notify_all(&self) {
+            self.inner.notify_all();
+            if let Some(o) = observer() {
+                o.cv_notify(self.id);
+            }
+        }
+
+        pub fn notify_one(&self) {
+            self.inner.notify_one();
+            if let Some(o) = observer() {
+                o.cv_notify(self.id);
+            }
+        }
+    }
+
+    impl Default for Condvar {
+        fn default() -> Self {
+            Self::new()
+        }
+    }
+
+    impl fmt::Debug for Condvar {
+        fn fmt(&self, f: &mut fmt::Formatter<'_>) -> fmt::Result {
+            self.inner.fmt(f)
+        }
+    }
+}
